@@ -99,16 +99,36 @@ func collect(inv *bill.Invoice, negate bool) figures {
 // divides; beyond 2^52 / 10^4 units the float detour of num.Amount is no longer
 // exact (C05's domain) and int64 can overflow: outside the property's domain.
 func tooLargeForRemoval(inv *bill.Invoice) bool {
-	lim := int64(1) << 38
-	big := func(a num.Amount) bool { v := a.Value(); return v > lim || v < -lim }
-	if inv.Totals != nil && (big(inv.Totals.Sum) || big(inv.Totals.TotalWithTax)) {
-		return true
+	// every figure is eventually accumulated at the finest precision present in the
+	// document plus the two decimals the removal adds: judge the magnitudes there
+	maxExp := uint32(0)
+	var all []num.Amount
+	note := func(a num.Amount) {
+		all = append(all, a)
+		if a.Exp() > maxExp {
+			maxExp = a.Exp()
+		}
+	}
+	if inv.Totals != nil {
+		note(inv.Totals.Sum)
+		note(inv.Totals.TotalWithTax)
 	}
 	for _, l := range inv.Lines {
-		if l.Item != nil && l.Item.Price != nil && big(*l.Item.Price) {
-			return true
+		if l.Item != nil && l.Item.Price != nil {
+			note(*l.Item.Price)
 		}
-		if l.Total != nil && big(*l.Total) {
+		if l.Sum != nil {
+			note(*l.Sum)
+		}
+		if l.Total != nil {
+			note(*l.Total)
+		}
+	}
+	lim := new(big.Int).Lsh(big.NewInt(1), 52)
+	for _, a := range all {
+		v := new(big.Int).Abs(big.NewInt(a.Value()))
+		v.Mul(v, new(big.Int).Exp(big.NewInt(10), big.NewInt(int64(maxExp+2-a.Exp())), nil))
+		if v.Cmp(lim) >= 0 {
 			return true
 		}
 	}
